@@ -3290,6 +3290,37 @@ stoCAlloc(unsigned code, ULong nbytes)
 }
 
 
+#ifdef ALDOR_VERIF_HOOKS
+/*
+ * Verification hook (compiled in only with -DALDOR_VERIF_HOOKS):
+ * ALDOR_VERIF_GC=<k>,<j>[,<skip>[,<max>]] forces a collection at every allocation
+ * whose serial number is congruent to j modulo k, leaving the first <skip>
+ * allocations alone and forcing at most <max> collections (0 = no limit).
+ */
+static void
+stoVerifGcHook(void)
+{
+	static long	v[4] = { -1, 0, 0, 0 }, count = 0, forced = 0;
+
+	if (v[0] == -1) {
+		String	s = osGetEnv("ALDOR_VERIF_GC");
+		int	i = 0;
+		v[0] = 0;
+		for ( ; s && *s && i < 4; s++) {
+			if (*s == ',') i++;
+			else if ('0' <= *s && *s <= '9') v[i] = v[i] * 10 + (*s - '0');
+		}
+	}
+	if (v[0] > 0) {
+		long	n = count++;
+		if (n >= v[2] && (n % v[0]) == v[1] % v[0] && (v[3] == 0 || forced < v[3])) {
+			forced++;
+			stoGc();
+		}
+	}
+}
+#endif
+
 MostAlignedType *
 stoAlloc(unsigned code, ULong nbytes)
 {
@@ -3300,6 +3331,10 @@ stoAlloc(unsigned code, ULong nbytes)
 
 	if (!stoIsInit && !stoInit())
 		return (*stoError)(StoErr_CantBuild);
+
+#ifdef ALDOR_VERIF_HOOKS
+	stoVerifGcHook();
+#endif
 
 #ifdef USE_MEMORY_CLIMATE
 	code = getMemoryClimate();
